@@ -68,3 +68,25 @@ Example C16_example_applied :
   load (Node t) "INVOKE_" [("INVOKE_RUN_ECHO", "1"); ("INVOKE_N", "-7"); ("INVOKE_NOPE", "x"); ("RUN_SHELL", "zsh")]
   = Ok [("run", Node [("echo", Leaf (VBool true))]); ("n", Leaf (VInt (-7)))].
 Proof. vm_compute. split; reflexivity. Qed.
+
+(** Tie to the source text: the branch table of Environment._cast and the
+    variable-name rule, regenerated from invoke/env.py on every run
+    (Generated/Tables.v), are the ones the model [cast]/[env_var] was written
+    from.  [None] = the translator did not recognise the shape (fallback to the
+    behavioural correspondence only). *)
+From InvokeVerif Require Generated.Tables.
+Theorem C16_cast_matches_source :
+  match Generated.Tables.cast_src with
+  | Some t => t = [("isinstance(old, bool)", "return new not in ('0', '')");
+                   ("isinstance(old, str)", "return new");
+                   ("old is None", "return new");
+                   ("isinstance(old, (list, tuple))",
+                    "err = ""Can't adapt an environment string into a {}!""; err = err.format(type(old)); raise UncastableEnvVar(err)");
+                   ("else", "return old.__class__(new)")]
+  | None => True
+  end /\
+  match Generated.Tables.to_env_var_src with
+  | Some e => e = "'_'.join(key_path).upper()"
+  | None => True
+  end.
+Proof. split; vm_compute; first [reflexivity | exact I]. Qed.
